@@ -32,4 +32,10 @@ mk d18_datatype_depth_guard     C02-datatype-nesting-unguarded         fix_c02f.
 mk d19_memo_forgotten_on_close  C18-diagnostics-memo-not-invalidated   fix_c18f.py
 mk d20_dollar_tags_indexed      C20-unclosed-dollar-tags-rescan        fix_c20f.py
 mk d21_partition_key_expr_only  C11-partition-key-fallback-swallows    fix_c11f.py
+mk d22_converter_buffer_copied   C09-converter-buffer-returned          fix_c09g.py
+mk d23_error_type_recheck       C10-error-type-counter-race            fix_c10g.py
+mk d24_litbuf_reset_in_reset    C08-litbuf-error-residue               fix_c08g.py
+mk d25_quote_prefix_one_pass    C20-quote-lookahead-unbounded          fix_c20g.py
+mk d26_rows_sized_by_total      C14-values-rows-first-row-budget       fix_c14g.py
+mk d27_tokens_only_same_expand  C07-tokens-only-converter              fix_c07g.py
 ls -la "$out"/*.diff
